@@ -33,6 +33,33 @@ CHECKS = {
  "C13": ("exploration", "metamorphic: table(stream) == table(reference-accepted subsequence) over proptest mixed streams with junk lines (NUL, invalid UTF-8, lone CR, 64-256 KiB); in-process and through the CLI",
          "both sides are real runs; the accepted subsequence is computed by the independent C02/C04 predicate",
          "invalid-UTF-8 junk never carries an accepted digit count", "DESIGN.md §6 C13"),
+ "C08": ("exploration", "proptest positions stratified over all NL zones / boundaries / antimeridian, encoded by an independent CPR encoder, stateful runs with simulated time (delays around 10 s), decode-or-unchanged oracle, independent great-circle distance",
+         "generated-input search with an inverse (encoder) oracle and a history invariant ('otherwise unchanged')",
+         "reference CPR encoder + closed-form NL; wall-clock ambiguity discarded and counted", "DESIGN.md §6 C08"),
+ "C10": ("exploration", "proptest stateful histories of DF11 / DF17 / Comm-B replies with registers synthesised from physical values; gate/advertisement model; soundness (group changes only when allowed, values = Doc 9871 decode) and completeness (valid advertised register must decode unless shadowed)",
+         "reference model of the capability gate plus independent register decoders; both directions of the statement are checked",
+         "undetermined gate states assert nothing; lenient shadowing rule", "DESIGN.md §6 C10"),
+ "C11": ("exploration", "bounded-exhaustive sequences (length <= 2 quick, <= 3 thorough) over a 46-symbol frame alphabet x 4 option sets + proptest long interleaved histories; per-step transition oracle with acceptable-value sets, bystander rows bit-identical, idempotent re-feed",
+         "reference fold evaluated after every prefix; complete for short sequences over the fixed alphabet",
+         "unconstrained zones listed in the evidence 'excluded' counters", "DESIGN.md §6 C11"),
+ "C12": ("exploration", "proptest stateful schedules of frames and silences (simulated time) x delete_after x -U x -f; history invariant on presence / absence / refreshed stamp / fresh row / row bound",
+         "model tracks last-heard times; expiry is only demanded after 12 accepted frames of one reader run",
+         "time simulated by shifting the stored stamps", "DESIGN.md §6 C12"),
+ "C14": ("exploration", "proptest row states injected into the table x all 32 -i subsets, cut into cells by an independent column specification and compared with an independent renderer; refresh structure of the real reader / CLI output",
+         "independent column spec + cell renderer; width equality when every value fits",
+         "annotation characters in separator positions allowed", "DESIGN.md §6 C14"),
+ "C15": ("exploration", "proptest table contents with ties / blanks / sub-unit differences x -o strings: permutation + monotone-key oracle on Planes::print output; every refresh of generated streams through the reader / CLI",
+         "permutation and monotonicity are validity predicates (ties any order, unspecified directions accept both)",
+         "letter C not generated", "DESIGN.md §6 C15"),
+ "C16": ("exploration", "metamorphic filter relation table(stream,-f F) == table(admitted frames) + reference DF counts against the reader's own counter line (captured in process and via the CLI)",
+         "reference count from the independent acceptance predicate; excluded frames must leave the table bit-identical",
+         "counts of DFs outside the nine formats not asserted", "DESIGN.md §6 C16"),
+ "C18": ("fault_enumeration", "enumerated (all sequences of length <= 2 quick / <= 3 thorough) and generated fault sequences against the built CLI with a harness-owned loopback peer (refuse, close, frames+close, partial line+RST, junk), followed by a healthy connection",
+         "fault sequences are enumerated up to the stated length; oracle = process alive, reconnects, table kept, lower bound on the retry pause",
+         "liveness only in the bounded sense (60 s deadline = inconclusive)", "DESIGN.md §6 C18"),
+ "C19": ("exploration", "differential: same generated history under two option sets differing only in presentation options (-i -o -c -u -M -D -O; -l via CLI); per-prefix comparison of decode results with and without -U on histories of valid DF4/5/11/17 frames",
+         "both sides are real runs; relation taken from the statement",
+         "histories slower than 0.9 s discarded", "DESIGN.md §6 C19"),
  "C17": ("exploration", "exhaustive enumeration of all 2^24 addresses against an independent block table + proptest-generated addresses through the reader",
          "every address is run through the public constructor and compared with a reference allocation table; complete for the address dimension, sampled for the frame formats that carry the address through the reader",
          "trusts the reference table transcribed from Annex 10 (two disputed ranges accept either answer)", "DESIGN.md §6 C17"),
